@@ -30,11 +30,19 @@ const (
 
 var mwLastAge int
 
+// mwInside, when set, runs while the request is "at the upstream" (inside c.Next): other requests
+// and time passing during the upstream round trip; it is consumed by the request that runs it.
+var mwInside func()
+
 func mwRequest(s *server, method string, outcome int, maxAge int, resp *cache.HTTPResponse) (label cache.Status, downstream int, err error, panicked bool) {
 	req := &http.Request{Method: method, Host: "h", RequestURI: "/a"}
 	c := elton.NewContext(&c15Writer{h: http.Header{}}, req)
 	c.Next = func() error {
 		downstream++
+		if f := mwInside; f != nil {
+			mwInside = nil
+			f()
+		}
 		switch outcome {
 		case mwCacheable:
 			setHTTPCacheMaxAge(c, maxAge)
@@ -65,8 +73,10 @@ func Harness_MW_cache() {
 	methods := []string{"GET", "HEAD", "POST", "PUT", "DELETE", "get"}
 	method := methods[verifChoice("method", len(methods))]
 	outcome := verifChoice("outcome", 5)
+	// the lifetime the proxy left in the context: any value, also zero and negative ones (an upstream
+	// Age larger than max-age); only a positive one makes the response storable
 	maxAge := verifInt("maxAge")
-	verifAssume(maxAge >= 1)
+	verifAssume(maxAge > -(1 << 31))
 	verifAssume(maxAge < 1<<31)
 	resp := &cache.HTTPResponse{StatusCode: 200}
 
@@ -85,6 +95,13 @@ func Harness_MW_cache() {
 	verifAssert("C01.cold-key-is-fetched-by-this-request", label == cache.StatusFetching && n1 == 1)
 	verifAssert("C02.panic-propagates", panicked == (outcome == mwPanic))
 	verifAssert("C02.error-propagates", (err != nil) == (outcome == mwError))
+	// what the fetch left behind, before the clock moves on: stored as a hit iff the downstream set a
+	// positive lifetime and a response; in every other case the key is marked hit-for-pass (never
+	// left fetching, never stored)
+	st := cache.GetDispatcher("c").GetHTTPCache(getKey(&http.Request{Method: method, Host: "h", RequestURI: "/a"})).GetStatus()
+	storable := verifAnd(outcome == mwCacheable, maxAge >= 1)
+	verifAssert("C03.stored-iff-positive-lifetime-and-response", (st == cache.StatusHit) == storable)
+	verifAssert("C02.fetch-always-ends-in-hit-or-hit-for-pass", st == cache.StatusHit || st == cache.StatusHitForPass)
 
 	// the follow-up request on the same key (clock free: the entry may have expired meanwhile)
 	label2, n2, _, _ := mwRequest(s, method, mwUncacheable, 1, resp)
@@ -92,13 +109,13 @@ func Harness_MW_cache() {
 	switch label2 {
 	case cache.StatusHit:
 		verifReach("MW.second.hit")
-		verifAssert("C03.hit-only-after-a-cacheable-fetch", outcome == mwCacheable)
+		verifAssert("C03.hit-only-after-a-cacheable-fetch", outcome == mwCacheable && maxAge >= 1)
 		verifAssert("C03.hit-never-contacts-downstream", n2 == 0)
 		// the Age the client sees never exceeds the lifetime the entry was stored with
 		verifAssert("C04.mw.age-le-T", mwLastAge <= maxAge)
 	case cache.StatusHitForPass:
 		verifReach("MW.second.pass")
-		verifAssert("C07.uncacheable-or-failed-fetch-marks-hit-for-pass", outcome != mwCacheable)
+		verifAssert("C07.uncacheable-or-failed-fetch-marks-hit-for-pass", outcome != mwCacheable || maxAge < 1)
 		verifAssert("C03.non-hit-contacts-downstream-exactly-once", n2 == 1)
 	case cache.StatusFetching:
 		// only possible when the stored entry or the marker has lapsed in the meantime
@@ -107,4 +124,56 @@ func Harness_MW_cache() {
 	default:
 		verifAssert("C03.label-is-decided", false)
 	}
+}
+
+func mwEntryBytes(method string) (cache.Status, []byte) {
+	e := cache.GetDispatcher("c").GetHTTPCache(getKey(&http.Request{Method: method, Host: "h", RequestURI: "/a"}))
+	st := e.GetStatus()
+	if st != cache.StatusHitForPass {
+		return st, nil
+	}
+	b, _ := e.Bytes()
+	return st, b
+}
+
+// C07: a request forwarded as hit-for-pass only passes: whatever its own outcome (uncacheable, a
+// response with a lifetime, error, panic) and whatever happened on the key while it was at the
+// upstream (nothing; or the period lapsed and a probe re-fetched the key, possibly storing a hit),
+// its completion leaves the key's entry exactly as it found it at that moment.  Otherwise the
+// period would slide with traffic (the key is never probed again) or a straggler would turn a
+// freshly stored hit back into hit-for-pass.
+func Harness_MW_pass_leaves_entry() {
+	cache.ResetDispatchers([]config.CacheConfig{{Name: "c", Size: 16, HitForPass: "5m"}})
+	s := NewServer(ServerOption{Addr: ":80", Cache: "c"})
+	resp := &cache.HTTPResponse{StatusCode: 200}
+	// the fetch that finds the key uncacheable
+	l1, _, _, _ := mwRequest(s, "GET", mwUncacheable, 0, resp)
+	verifAssume(l1 == cache.StatusFetching)
+	st1, _ := mwEntryBytes("GET")
+	verifAssert("C07.uncacheable-fetch-leaves-marker", st1 == cache.StatusHitForPass)
+	// the passed request P; while it is at the upstream, optionally another request F runs to completion
+	outcomeP := verifChoice("outcomeP", 5)
+	nested := verifBool("nested")
+	var stIn cache.Status
+	var bytesIn []byte
+	mwInside = func() {
+		// (when the marker had already lapsed P itself is the probe: another request would queue
+		// behind it, and P is not the subject of this harness)
+		if cur, _ := mwEntryBytes("GET"); nested && cur != cache.StatusFetching {
+			outcomeF := verifChoice("outcomeF", 2) // cacheable (lifetime 60) or uncacheable
+			mwRequest(s, "GET", outcomeF*mwUncacheable, 60, resp)
+			verifReach("MW.pass.nested")
+		}
+		stIn, bytesIn = mwEntryBytes("GET")
+	}
+	lP, nP, _, _ := mwRequest(s, "GET", outcomeP, 60, resp)
+	verifAssume(lP == cache.StatusHitForPass) // (the marker may have lapsed under the free clock: then P is a fetcher, not the subject)
+	verifAssert("C07.passed-request-contacts-upstream-exactly-once", nP == 1)
+	stOut, bytesOut := mwEntryBytes("GET")
+	same := stOut == stIn && len(bytesIn) == len(bytesOut)
+	for i := 0; same && i < len(bytesIn); i++ {
+		same = bytesIn[i] == bytesOut[i]
+	}
+	verifAssert("C07.passed-request-leaves-the-entry-untouched", same)
+	verifReach("MW.pass.end")
 }
